@@ -39,6 +39,9 @@ func f2(th bool) []Fam {
 			va := d.n(2) == 1
 			kind := d.n(len(f2Kind))
 			ca := d.n(len(f2ChunkArgs))
+			if !th && kind >= 2 {
+				return nil // quick: callee kinds local function and method only
+			}
 			if rtail == 1 && !va {
 				return nil // `...` outside a vararg function does not compile
 			}
